@@ -63,7 +63,9 @@ func (g *worldGen) pct(p int) bool { return g.r.Intn(100) < p }
 func (g *worldGen) leaf(name string) interface{} {
 	td := g.s.Type(name)
 	if g.pct(g.k.WrongKind) {
-		return g.r.Pick([]string{"zzz", "12", "true"}) // strings where numbers/booleans/enums are expected (and vice versa below)
+		// strings where numbers/booleans/enums are expected (and vice versa below), incl. the spellings
+		// strconv.ParseFloat accepts for NaN and the infinities
+		return g.r.Pick([]string{"zzz", "12", "true", "NaN", "+Inf", "-Inf", "Infinity", "nan", "inf"})
 	}
 	if td != nil && td.Kind == "ENUM" {
 		ev := td.Values[g.r.Intn(len(td.Values))]
@@ -524,16 +526,30 @@ func checkInfo(p graphql.ResolveParams, typeName, fieldName string) string {
 }
 
 func mutateArgs(args map[string]interface{}) {
-	for k, v := range args {
-		switch x := v.(type) {
-		case []interface{}:
-			if len(x) > 0 {
-				x[0] = "MUTATED"
-			}
-		case map[string]interface{}:
-			x["__mutated"] = true
-		}
-		_ = k
+	for _, v := range args {
+		mutateValue(v)
 	}
 	args["__extra"] = 1
+}
+
+// mutateValue changes a received argument value in place at every nesting level.
+func mutateValue(v interface{}) {
+	switch x := v.(type) {
+	case []interface{}:
+		for _, e := range x {
+			mutateValue(e)
+		}
+		if len(x) > 0 {
+			if _, nested := x[0].([]interface{}); !nested {
+				if _, obj := x[0].(map[string]interface{}); !obj {
+					x[0] = "MUTATED"
+				}
+			}
+		}
+	case map[string]interface{}:
+		for _, e := range x {
+			mutateValue(e)
+		}
+		x["__mutated"] = true
+	}
 }
